@@ -17,7 +17,7 @@ RULE = (
     "the expectation computed from the spec and the driver's public attributes (one per enabled property of each addressed "
     "device or only the named one; device/name/group/label/state/perm/rule/timeout; one child per enabled element with "
     "name/label/current value/number format,min,max,step); no definition from unaddressed devices or for unknown names; and EVERY "
-    "message emitted during the history and the reply is serialized, re-parsed by the library's parser and read back unchanged. "
+    "message emitted during the history and the reply is serialized, re-parsed by the library's parser - from the bytes, and the way its transports read them (decoded as Latin-1, framed by Buffer) - and read back unchanged. "
     "Non-trivial: the addressed device has >= 1 disabled and >= 1 enabled property, or >= 1 op changed the state before the request."
 )
 ASSUMPTIONS = [
@@ -144,6 +144,19 @@ def parse_back(msg, where):
         raise Failure(f"emitted-unparsable:{msg.__class__.tag_name()}:{detail}", f"{where}: {type(e).__name__}: {e} on {wire[:400]!r}")
     if gen.view(back) != gen.view(msg):
         raise Failure(f"emitted-reads-back-differently:{msg.__class__.tag_name()}", f"{where}: {gen.view(msg)} -> {gen.view(back)}")
+    # ... and the way every transport of the library reads it: bytes decoded as Latin-1, framed by Buffer, parsed from text
+    if isinstance(wire, (bytes, bytearray)):
+        from indi.transport.buffer import Buffer
+
+        got = []
+        try:
+            b = Buffer()
+            b.append(bytes(wire).decode("latin1"))
+            b.process(got.append)
+        except Exception as e:  # noqa
+            raise Failure(f"emitted-unreadable-by-transport:{msg.__class__.tag_name()}", f"{where}: {type(e).__name__}: {e} on {wire[:400]!r}")
+        if len(got) != 1 or gen.view(got[0]) != gen.view(msg):
+            raise Failure(f"emitted-reads-back-differently:through-transport-decoding:{msg.__class__.tag_name()}", f"{where}: {gen.view(msg)} -> {[gen.view(g) for g in got]}")
 
 
 class Recorder:
